@@ -13,6 +13,7 @@ type StartStop struct {
 	startedCh chan struct{}
 	doneCh    chan struct{}
 	stopped   bool
+	gen       uint64 // number of resets performed by Started
 }
 
 // New creates a new StartStop instance.
@@ -36,6 +37,7 @@ func (l *StartStop) Started() (done func()) {
 			l.stopCh = make(chan struct{})
 			l.startedCh = make(chan struct{})
 			l.stopped = false
+			l.gen++
 		default:
 		}
 	}
@@ -63,6 +65,7 @@ func (l *StartStop) Stop() {
 		close(l.stopCh)
 	}
 	startedCh := l.startedCh
+	gen := l.gen
 	l.mu.Unlock()
 	verifYield("stop:sec1")
 
@@ -71,8 +74,15 @@ func (l *StartStop) Stop() {
 
 	l.mu.Lock()
 	doneCh := l.doneCh
+	moved := l.gen != gen
 	l.mu.Unlock()
 	verifYield("stop:sec2")
+
+	if moved {
+		// Started has reset the lifecycle since the first section: the Run this
+		// Stop targeted has returned. Do not wait on a later Run it never signalled.
+		return
+	}
 
 	<-doneCh
 }
